@@ -72,7 +72,7 @@ CHECKS = {
         "custom step 'roundtrip' (and always at the end): ExportGenesis of ecocredit+data (+auth,bank) -> each module's ValidateGenesis -> InitGenesis into an empty chain -> re-export byte-identical after JSON canonicalisation -> registered invariants hold on the imported chain. "
         "Non-trivial = a round trip over a state with rows in >=10 tables.", quick=2400),
     "C10": stateful("TestC10",
-        "differential: each generated trace is executed 6-7 times in-process (as generated, again, with restarts at all / none / the complementary set of block boundaries, with the failed messages removed, with the speculative discarded-branch executions removed, with another local time zone, and while three other goroutines keep simulating the trace's messages on discarded branches through the same keepers) and, in the thorough tier, once more in a second OS process (other TZ, GOMAXPROCS=2); a small share of the cases is run again in a binary built with the Go race detector (a race whose racing access is in regen-ledger code is a violation); "
+        "differential: each generated trace is executed up to 9 times in-process (as generated, again, with restarts at all / none / the complementary set of block boundaries, with the failed messages removed, with the speculative discarded-branch executions removed, with another local time zone, and while three other goroutines keep simulating the trace's messages on discarded branches through the same keepers) and, in the thorough tier, once more in a second OS process (other TZ, GOMAXPROCS=2); a small share of the cases is run again in a binary built with the Go race detector (a race whose racing access is in regen-ledger code is a violation); "
         "per-block app hash, per-message success flag, ABCI code, response bytes, event bytes and gas must be identical (block hashes only for the failed-messages-removed run). "
         "Non-trivial = a restart strictly inside the history followed by >=5 accepted messages, with data-module messages accepted.", quick=800, thorough=20000,
         extra={"quick": {"race": {"checks": 24, "shards": 4, "test": "TestC10"}}, "thorough": {"race": {"checks": 640, "shards": 16, "test": "TestC10", "timeout": 3000}}}),
